@@ -15,18 +15,29 @@
 EXTENDS Integers, TLC
 CONSTANTS Accts,      \* {"eoa","fwd"}: accounts that can be actors
           Paths, Ops, Amts, Vals, Options, Start, Deposit
-VARIABLES bal, del, unb, voted, active, burned, last
-stateVars == <<bal, del, unb, voted, active, burned>>
+V == {"v1", "v2"}                 \* the two bonded validators
+Target(v) == CASE v = "valid" -> "v1" [] v = "second" -> "v2" [] OTHER -> "none"
+Other(x) == IF x = "v1" THEN "v2" ELSE "v1"
+VARIABLES bal, del, unb, voted, active, burned,
+          redel,   \* redel[a] = set of <<src, dst>> redelegations of a still maturing (a validator that received one cannot be redelegated from)
+          last
+stateVars == <<bal, del, unb, voted, active, burned, redel>>
 vars == <<stateVars, last>>
-Init == /\ bal = [a \in Accts |-> Start] /\ del = [a \in Accts |-> 0] /\ unb = del
+Init == /\ bal = [a \in Accts |-> Start] /\ del = [a \in Accts |-> [x \in V |-> 0]] /\ unb = [a \in Accts |-> 0] /\ redel = [a \in Accts |-> {}]
         /\ voted = [a \in Accts |-> 0] /\ active = TRUE /\ burned = 0
         /\ last = [act |-> "Init", res |-> "ok"]
 Actor(path) == CASE path = "direct" -> "eoa" [] path = "forward" -> "fwd" [] OTHER -> "none"
 NativeOK(a, op, v, n, o) ==
-  CASE op = "delegate"   -> v = "valid" /\ n > 0 /\ bal[a] >= n
-    [] op = "undelegate" -> v = "valid" /\ n > 0 /\ del[a] >= n
-    [] op = "withdraw"   -> v = "valid" /\ del[a] > 0
+  CASE op = "delegate"   -> Target(v) \in V /\ n > 0 /\ bal[a] >= n
+    [] op = "undelegate" -> Target(v) \in V /\ n > 0 /\ del[a][Target(v)] >= n
+    [] op = "withdraw"   -> Target(v) \in V /\ del[a][Target(v)] > 0
+    (* redelegate from Target(v) to the other validator; the staking module refuses a source that is itself the *)
+    (* destination of a maturing redelegation of the same delegator                                              *)
+    [] op = "redelegate" -> /\ Target(v) \in V /\ n > 0 /\ del[a][Target(v)] >= n
+                            /\ ~(\E r \in redel[a] : r[2] = Target(v))
     [] op = "vote"       -> active /\ o \in 1..4
+    (* weighted vote: one option with the whole weight (o in 1..4) or options 1 and 2 with half each (o = 12) *)
+    [] op = "votew"      -> active /\ o \in (1..4) \cup {12}
     [] OTHER -> FALSE
 (* result of the EVM transaction *)
 TxOK(path, op, v, n, o) ==
@@ -36,23 +47,35 @@ TxOK(path, op, v, n, o) ==
 TxEff(path, op, v, n, o) ==
   IF ~(Actor(path) \in Accts /\ NativeOK(Actor(path), op, v, n, o)) THEN UNCHANGED stateVars
   ELSE LET a == Actor(path) IN
-    CASE op = "delegate"   -> bal' = [bal EXCEPT ![a] = @ - n] /\ del' = [del EXCEPT ![a] = @ + n] /\ UNCHANGED <<unb, voted, active, burned>>
-      [] op = "undelegate" -> del' = [del EXCEPT ![a] = @ - n] /\ unb' = [unb EXCEPT ![a] = @ + n] /\ UNCHANGED <<bal, voted, active, burned>>
+    CASE op = "delegate"   -> bal' = [bal EXCEPT ![a] = @ - n] /\ del' = [del EXCEPT ![a][Target(v)] = @ + n] /\ UNCHANGED <<unb, voted, active, burned, redel>>
+      [] op = "undelegate" -> del' = [del EXCEPT ![a][Target(v)] = @ - n] /\ unb' = [unb EXCEPT ![a] = @ + n] /\ UNCHANGED <<bal, voted, active, burned, redel>>
       [] op = "withdraw"   -> UNCHANGED stateVars                         \* no rewards accrue in these behaviours
-      [] op = "vote"       -> voted' = [voted EXCEPT ![a] = o] /\ UNCHANGED <<bal, del, unb, active, burned>>
+      [] op = "redelegate" -> /\ del' = [del EXCEPT ![a][Target(v)] = @ - n, ![a][Other(Target(v))] = @ + n]
+                              /\ redel' = [redel EXCEPT ![a] = @ \cup {<<Target(v), Other(Target(v))>>}]
+                              /\ UNCHANGED <<bal, unb, voted, active, burned>>
+      [] op \in {"vote", "votew"} -> voted' = [voted EXCEPT ![a] = o] /\ UNCHANGED <<bal, del, unb, active, burned, redel>>
+(* A contract that calls the gov contract twice in one transaction (two Voted events of the system contract with the  *)
+(* same sender "dbl"): vote o1 on proposal 1 (v = "valid") or on a proposal that does not exist, then vote o2 on        *)
+(* proposal 1.  Every event is executed; if any native message fails the whole transaction is reverted.              *)
+Tx2OK(v, o1, o2) == active /\ v = "valid" /\ o1 \in 1..4 /\ o2 \in 1..4
+Tx2Eff(v, o1, o2) == IF "dbl" \in Accts /\ Tx2OK(v, o1, o2) THEN voted' = [voted EXCEPT !["dbl"] = o2] /\ UNCHANGED <<bal, del, unb, active, burned, redel>>
+                     ELSE UNCHANGED stateVars
 (* the voting period ends without quorum: the deposit is "burned", i.e. moved to the fee collector *)
-ExpireEff == IF active THEN active' = FALSE /\ burned' = burned + Deposit /\ voted' = [a \in Accts |-> 0] /\ UNCHANGED <<bal, del, unb>>
+ExpireEff == IF active THEN active' = FALSE /\ burned' = burned + Deposit /\ voted' = [a \in Accts |-> 0] /\ UNCHANGED <<bal, del, unb, redel>>
              ELSE UNCHANGED stateVars
 Res(ok) == IF ok THEN "ok" ELSE "err"
 Next ==
   \/ \E p \in Paths, op \in Ops, v \in Vals, n \in Amts, o \in Options :
        TxEff(p, op, v, n, o) /\ last' = [act |-> "Tx", res |-> Res(TxOK(p, op, v, n, o)), path |-> p, op |-> op, val |-> v, amt |-> n, opt |-> o]
+  \/ \E v \in {"valid", "unknown"}, o1 \in Options, o2 \in Options :
+       Tx2Eff(v, o1, o2) /\ last' = [act |-> "Tx2", res |-> Res(Tx2OK(v, o1, o2)), val |-> v, opt |-> o1, opt2 |-> o2]
   \/ ExpireEff /\ last' = [act |-> "Expire", res |-> "ok"]
 Spec == Init /\ [][Next]_vars
 (* C17 *)
-Conserved == \A a \in Accts : bal[a] + del[a] + unb[a] = Start
-NonNegative == \A a \in Accts : bal[a] >= 0 /\ del[a] >= 0 /\ unb[a] >= 0
+Conserved == \A a \in Accts : bal[a] + del[a]["v1"] + del[a]["v2"] + unb[a] = Start
+NonNegative == \A a \in Accts : bal[a] >= 0 /\ unb[a] >= 0 /\ \A x \in V : del[a][x] >= 0
 FailedTxChangesNothing == [][last'.res = "err" => UNCHANGED stateVars]_vars
 OnlySystemContractEvents == [][(last'.act = "Tx" /\ last'.path \in {"delegatecall", "lookalike", "fwdrevert"}) => UNCHANGED stateVars]_vars
+OncePerEvent == [][(last'.act = "Tx2" /\ last'.res = "ok") => voted'["dbl"] = last'.opt2]_vars
 ForCallerOnly == [][(last'.act = "Tx") => \A a \in Accts \ {Actor(last'.path)} : bal'[a] = bal[a] /\ del'[a] = del[a] /\ unb'[a] = unb[a] /\ voted'[a] = voted[a]]_vars
 =============================================================================
